@@ -97,6 +97,10 @@ STATEFUL = [
     "generateMany($.n, range($), $ * 10).take(8)",
     "$.src.select($ * 2).take(3)", "$.src.where($ mod 2 = 0).take(2)",
     "$.src.memorize().take(4).toList()", "$.src.take(3).orderBy(-$)",
+    "$yobj.foo", "$yobj.bar", "[$yobj.foo, $yobj.name]", "$yobj.upper($.s)",
+    "$yobj.items[0]", "$yobj.add($.n, 1)", "[$yobj.bar, $yobj.add(1, $.n)]",
+    "$yobj2.foo", "[$yobj2.name, $yobj.name]", "$yobj.child.foo",
+    "$.list.select($yobj.add($, 1))", "$.strs.select($yobj.upper($))",
 ]
 
 
@@ -168,6 +172,18 @@ def gen_case(seeds, params, index):
                     docs.append(json.loads(json.dumps(shared_doc[0])))
                 else:
                     docs.append(c09.gen_doc(w))
+                    d = docs[-1]
+                    if d['root'] == 'dict' and w.random() < 0.3:
+                        # longer collections: longer sorts / groupings, more
+                        # room for two threads to be inside the same helper
+                        d['v']['list'] = [w.randrange(-5, 20) for _ in range(
+                            w.randrange(8, 15))]
+                        d['v']['recs'] = [
+                            {'name': w.choice(['n1', 'n2', 'n3', 'n4']),
+                             'v': w.randrange(5), 'tags': [w.randrange(3)]}
+                            for _ in range(w.randrange(4, 8))]
+                        d['v']['strs'] = [w.choice(['a', 'bb', 'c', 'ab', 'ba'])
+                                          for _ in range(w.randrange(4, 8))]
                     shared_doc.append(docs[-1])
                 if docs[-1]['root'] == 'dict' and not same_docs:
                     docs[-1]['v']['n'] = (docs[-1]['v']['n'] + t) % 10
@@ -178,18 +194,82 @@ def gen_case(seeds, params, index):
             'mean': s.choice([3, 30, 300, 3000]),
             'nswitch': s.randrange(1, 6)}
     return {'stmts': stmts, 'docs': docs, 'tasks': tasks, 'sched': spec,
-            'via_eval': eval_flavour}
+            'via_eval': eval_flavour, 'cold': w.random() < 0.25}
 
 
 # ---------------------------------------------------------------------------
 
+class HostObject:
+    """A yaqlized host object shared by all threads."""
+
+    def __init__(self, name, child=None):
+        self.name = name
+        self.foo = 'FOO-' + name
+        self.bar = [1, 2, 3]
+        self.items = ['i0', 'i1']
+        self.child = child
+        self._private = 'secret'
+
+    def upper(self, s):
+        return str(s).upper()
+
+    def add(self, a, b):
+        return a + b
+
+    def __getitem__(self, i):
+        return self.items[i]
+
+
+class NameIn:
+    """Callable whitelist entry with a fixed hash (a lambda would hash by
+    address and make the scan order of the whitelist set unrepeatable)."""
+
+    def __init__(self, names, h):
+        self.names = names
+        self.h = h
+
+    def __call__(self, n):
+        return n in self.names
+
+    def __hash__(self):
+        return self.h
+
+    def __eq__(self, other):
+        return self is other
+
+
+def make_host_objects():
+    import re
+    from yaql import yaqlization
+    inner = HostObject('inner')
+    yaqlization.yaqlize(inner, whitelist=[re.compile('^[a-z]+$')])
+    o1 = HostObject('one', inner)
+    yaqlization.yaqlize(o1, whitelist=[
+        re.compile('^f.*$'), NameIn(('bar', 'name', 'items', 'child'), 12345),
+        'upper', re.compile('^add$')], blacklist=['_private'])
+    o2 = HostObject('two')
+    yaqlization.yaqlize(o2, whitelist=[re.compile('.*o.*'), 'name'],
+                        auto_yaqlize_result=True)
+    return o1, o2
+
+
 class World:
-    def __init__(self, case):
+    def __init__(self, case, cold=False):
         from yaql.language import expressions as X
         self.case = case
         self.probe_calls = 0
-        root = synth.chain_contexts('default')
+        if cold:
+            # a context chain nobody has evaluated anything in yet: fresh
+            # FunctionDefinition clones (first-use / lazy-initialisation
+            # races are invisible on a warmed-up chain).  Their simulator
+            # hashes restart at a fixed base so that the run replays.
+            import yaql
+            seams.HashSeam.counter = 1000000
+            root = yaql.create_context()
+        else:
+            root = synth.chain_contexts('default')
         P = root.create_child_context()
+        P['yobj'], P['yobj2'] = make_host_objects()
 
         def probe(x):
             return x
@@ -269,7 +349,9 @@ def outcome_of(fn):
 def run_world(case, stats, record=None):
     """-> (violations, info).  Executes baseline + concurrent phase."""
     import yaql
-    world = World(case)
+    cold = bool(case.get('cold'))
+    world = World(case)             # warm twin: baseline + measurement
+    cworld = World(case, cold=True) if cold else world
     via_eval = case.get('via_eval')
     saved = None
     if via_eval:
@@ -279,14 +361,15 @@ def run_world(case, stats, record=None):
         yaql._cached_expressions = {}
         yaql._default_context = world.P
 
-    def evaluate(si, di):
-        st = world.stmts[si]
+    def evaluate(si, di, w=None):
+        w = w or world
+        st = w.stmts[si]
         if st is None:
             raise ValueError('unparsable statement')
-        data = world.doc(di)
+        data = w.doc(di)
         if via_eval:
             return yaql.eval(case['stmts'][si]['expr'], data)
-        return st.evaluate(data=data, context=world.P.create_child_context())
+        return st.evaluate(data=data, context=w.P.create_child_context())
 
     viols = []
     info = {}
@@ -320,6 +403,16 @@ def run_world(case, stats, record=None):
                                                for s in case['stmts']]}})
             return viols, info
         # ---- concurrent phase ----
+        if cold:
+            snap0 = cworld.snapshot()
+            if via_eval:
+                yaql._default_context = cworld.P
+        else:
+            # fresh host objects for the concurrent phase: state that yaql
+            # might park ON a host object during its first accesses must not
+            # be pre-populated by the sequential baseline
+            world.P['yobj'], world.P['yobj2'] = make_host_objects()
+            snap0 = world.snapshot()
         active = [0] * len(case['tasks'])
         probe = {'both': 0, 'sites': []}
 
@@ -360,7 +453,8 @@ def run_world(case, stats, record=None):
                 for si, di in ops:
                     active[t] = 1
                     try:
-                        outs.append(outcome_of(lambda: evaluate(si, di)))
+                        outs.append(outcome_of(
+                            lambda: evaluate(si, di, cworld)))
                     finally:
                         active[t] = 0
                 return outs
@@ -392,11 +486,12 @@ def run_world(case, stats, record=None):
                                    'concurrent': results[t][j]
                                    if results[t] else None,
                                    'threads': len(case['tasks']),
+                                   'cold_context': cold,
                                    'via_eval': bool(via_eval)}})
                     break
             if viols:
                 break
-        if not viols and world.snapshot() != snap0:
+        if not viols and cworld.snapshot() != snap0:
             viols.append({'key': 'C18:shared-context-changed',
                           'clause': 'the shared context is unchanged '
                                     'afterwards',
@@ -443,6 +538,8 @@ def execute(case, stats):
               info.get('measured', [0, 0])[1])
     if case.get('via_eval'):
         stats.inc('flavour.yaql_eval')
+    if case.get('cold'):
+        stats.inc('flavour.cold_context_chain')
     sig = core.h64(core.jdump(case['stmts']), core.jdump(case['tasks']),
                    core.jdump(info.get('recorded', [])))
     stats.add('interleavings', sig)
@@ -488,6 +585,8 @@ def shrink_candidates(case):
         yield mk(schedule=schedule[:i + 1])
     if case.get('via_eval'):
         yield mk(via_eval=False)
+    if case.get('cold'):
+        yield mk(cold=False)
 
 
 def match_known(case, viol, entry):
